@@ -294,9 +294,43 @@ def r7(ctx, facts):
                "the shard of a token would then be computed with stale parameters", b.span)
 
 
+def r8(ctx, facts):
+    r = ctx.rule("R8", "NTS deterministic order: the replica yielded first is a node of a datacenter the keyspace replicates to", floor=2)
+    b = facts.one(r"^<scylla::routing::locator::ReplicasOrderedNTSIterator<'a> as core::iter::traits::iterator::Iterator>::next$")
+    dj = dj_of(b, facts)
+    gets = []
+    for bb, c in b.calls():
+        if bb in b.live_blocks and (c.decl or "").split("::")[-1] in ("get", "contains_key", "get_key_value") and "HashMap" in (c.decl or ""):
+            locs, _, _ = backward_slice(b, c.args[0], data_only=True)
+            if any(b.local_name(l) == "datacenter_repfactors" for l in locs) or "datacenter_repfactors" in slice_fields(b, c.args[0]):
+                gets.append(c)
+    picks = [(bb, j, st) for bb in sorted(b.live_blocks) for j, st in enumerate(b.stmts(bb))
+             if st[0] == "A" and st[2][0] == "agg" and st[2][1][0] == "adt" and st[2][1][1].endswith("ReplicasOrderedNTSIteratorInner") and st[2][1][2] == "Picked"]
+    if not picks:
+        raise AnchorLost("ReplicasOrderedNTSIterator::next: no Picked state is built")
+
+    def known_dc(stt):
+        for g in gets:
+            if g.decl.endswith("contains_key"):
+                if in_set(stt.get(("call", g.bb)), {1}):
+                    return True
+            else:
+                root = dj.disc_root(dj.canon.path(g.dest))
+                if in_set(stt.get(("disc", root)), {1}):
+                    return True
+        return False
+    for bb, j, st in picks:
+        sts = dj.states_before_stmt(bb, j)
+        ok = bool(gets) and bool(sts) and all(known_dc(x) for x in sts)
+        r.instance("primary-is-in-replicating-dc", ok,
+                   "the node recorded as `picked` (and yielded as the primary replica) must come from the region where datacenter_repfactors has an entry for the node's "
+                   "datacenter; otherwise the owner of the next vnode - possibly in a datacenter without replicas - is the first target of LWT plans", b.stmt_span(st))
+    r.instance("repfactor-lookups", True, "%d lookups of the node's datacenter in datacenter_repfactors" % len(gets), b.span, nontrivial=False)
+
+
 def check(ctx):
     facts = inline_view(ctx.facts("default"))
-    for fn in (r1, r2, r3, r4, r5, r6, r7):
+    for fn in (r1, r2, r3, r4, r5, r6, r7, r8):
         try:
             fn(ctx, facts)
         except AnchorLost as ex:
